@@ -13,6 +13,7 @@ def run_repo_tests(paths, timeout=900):
     env["PYTHONPATH"] = os.path.join(repo_root(), "src") + os.pathsep + VERIF
     env["VF_CONTRACT_REPORT"] = rep
     env["CMINX_VERIF"] = "1"
+    env.pop("PYTHONOPTIMIZE", None)      # the repository's own tests (and the contracts) consist of assert statements
     p = subprocess.run([PY, "-m", "pytest", "-q", "-p", "no:cacheprovider", "-p", "vf.pytest_contracts"] + list(paths),
                        cwd=repo_root(), env=env, capture_output=True, timeout=timeout)
     out = p.stdout.decode("utf-8", "replace")
